@@ -337,19 +337,41 @@ def linearity_oracle(case, rng):
             return a * u + b * v
         return a * u + b * v
 
-    def run(seeds, twice=False):
+    zerod = rng.random() < 0.5      # scalar seeds handed over as 0-d numpy arrays (mutable!) instead of Python / numpy scalars
+    seed_changed = []
+
+    def seedobj(w):
+        if zerod and w is not None and not isinstance(w, DyadCarrier) and np.ndim(w) == 0:
+            return np.array(w)
+        return vcopy(w)
+
+    def run(seeds, twice=False, thrice=False):
         m.reset()
         for so, w in zip(m.sig_out, seeds):
-            so.sensitivity = vcopy(w)
+            so.sensitivity = seedobj(w)
         m.sensitivity()
         g1 = [vcopy(s.sensitivity) for s in sigs]
+        for so, w in zip(m.sig_out, seeds):
+            if w is not None and not isinstance(w, DyadCarrier) and not same(so.sensitivity, w):
+                seed_changed.append(so.tag)
         if not twice:
             return g1, None
         m.sensitivity()
         g2 = [vcopy(s.sensitivity) for s in sigs]
+        if thrice:
+            m.sensitivity()
+            return g1, g2, [vcopy(s.sensitivity) for s in sigs]
         return g1, g2
 
-    g1, g1b = run(w1, twice=True)
+    g1, g1b, g1c = run(w1, twice=True, thrice=True)
+    # (a seed modified in place is NOT reported: the property protects states, and e.g. AssembleGeneral masks the bc rows of a
+    #  dense seed idempotently; what matters is that repeated calls keep adding the same contribution -> the three-call check)
+    for i, (u, v) in enumerate(zip(g1, g1c)):
+        if u is None or v is None:
+            continue
+        U, V = _align(todense(u), todense(v))
+        if not np.allclose(V, 3 * U, rtol=1e-9, atol=1e-12 * max(maxabs(U), 1e-300)):
+            return f"{case.name}: calling sensitivity() three times does not add the contribution three times (input {i}: max|g3-3g1| = {np.max(np.abs(V - 3 * U)):.3e})"
     # states must be untouched
     for s, x in zip(sigs, x0):
         if not same(s.state, x):
@@ -703,14 +725,23 @@ def gen_complex(rng):
         xs = [r(), r()]
         cls = pym.MakeComplex
     else:
-        xs = [r(True)]
+        realin = rng.random() < 0.35        # a REAL-typed input is admissible too (the real axis of the complex plane)
+        xs = [r(not realin)]
+        if realin and kind == "norm":       # |x| is not differentiable at 0: stay away from it
+            v = rng.uniform(0.3, 2.0, shp) * rng.choice([-1.0, 1.0], shp)
+            xs = [v if len(shp) else float(v)]
         cls = {"real": pym.RealPart, "imag": pym.ImagPart, "norm": pym.ComplexNorm}[kind]
 
     def make():
         sigs = [pym.Signal(f"z{i}", vcopy(x)) for i, x in enumerate(xs)]
         return cls(sigs), sigs
 
-    return Case(f"Complex.{kind}.{shp}", make, affine=kind != "norm")
+    tag = ".realin" if (kind != "make" and not np.iscomplexobj(xs[0])) else ""
+    c = Case(f"Complex.{kind}.{shp}{tag}", make, affine=kind != "norm")
+    if tag and kind == "norm":
+        c.clip = None
+        c.hist_scale = 0.1
+    return c
 
 
 def gen_aggregation(rng):
@@ -1014,4 +1045,4 @@ def numerical_limit(fam, msg):
     """exceptions that are a documented numerical limit of the implementation's algorithm, not a property violation:
     the sparse eigenvector sensitivity solves the (by construction singular) system (A - lambda B) v = r with an LU
     factorisation; SuperLU occasionally finds the factor EXACTLY singular and raises. Counted as boundary skip."""
-    return fam == "eigensolve_sparse" and "exactly singular" in (msg or "")
+    return fam == "eigensolve_sparse" and ("exactly singular" in (msg or "") or "Singular matrix" in (msg or ""))   # (dense LDL without B)
